@@ -1,7 +1,45 @@
 import Mutagen.Driver.Util
+import Mutagen.Model.Symlink
 namespace Mutagen.Driver.C16
+open Mutagen.Driver Mutagen.Model.Symlink
 
-/-- Model-side handler for one line of the C16 correspondence stream. -/
-def handle (_line : String) : String := "unimplemented"
+/-!
+Lines (paths and targets are hex byte strings, `-` = empty):
+  `n <path> <target>`         normalizeSymbolicLinkAndEnsurePortable → `ok <hex>` | `err <kind>`
+  `s <mode> <path> <target>`  entry a real scan reports for a link on disk → `symlink <hex>` | `problematic`
+                              (mode `p` portable, `r` POSIX raw)
+  `t <mode> <path> <target>`  does a real transition create the link → `created` | `refused`
+                              (mode `p` portable, `r` POSIX raw, `i` ignore)
+-/
+
+def showErr : Err → String
+  | .empty => "empty" | .tooLong => "long" | .colon => "colon"
+  | .backslash => "backslash" | .absolute => "absolute" | .outside => "outside"
+
+def parseMode : String → Option Mode
+  | "p" => some .portable | "r" => some .posixRaw | "i" => some .ignore | _ => none
+
+def handle (line : String) : String :=
+  match fields line with
+  | ["n", p, t] =>
+    match decHex p, decHex t with
+    | some p, some t =>
+      match normalize p t with
+      | .ok r => s!"ok {encHex r}"
+      | .error e => s!"err {showErr e}"
+    | _, _ => "bad-op"
+  | ["s", m, p, t] =>
+    match parseMode m, decHex p, decHex t with
+    | some m, some p, some t =>
+      if m = .ignore then "bad-op" else
+      match scanSymbolicLink p t (m = .portable) with
+      | .symlink r => s!"symlink {encHex r}"
+      | .problematic => "problematic"
+    | _, _, _ => "bad-op"
+  | ["t", m, p, t] =>
+    match parseMode m, decHex p, decHex t with
+    | some m, some p, some t => if createGuard m p t then "created" else "refused"
+    | _, _, _ => "bad-op"
+  | _ => "bad-op"
 
 end Mutagen.Driver.C16
